@@ -78,6 +78,9 @@ def main():
     for pre in ('=', '>', '>=', '<', '<='):
         for sign in ('', '-'):
             units.append(('constant-text', pre, sign))
+    # the constant of a cast comparison in the condition: literal text -> tokenise (real MIR) -> the integer it denotes
+    for sign in ('', '-'):
+        units.append(('condition-constant', sign))
     ck.run_units(units, run_unit)
     ck.finish('comparison arm of solve_expression on symbolic cells and symbolic constants; z3 decides against '
               '65-bit / IEEE relations')
@@ -325,6 +328,83 @@ def constant_text_unit(ck, pre, sign):
     ck.extra['programs'] = ck.extra.get('programs', 0) + 1
 
 
+def condition_constant_unit(ck, sign):
+    """'<sign><digits>' with 1..20 symbolic decimal digits through the real condition tokeniser: when it yields a
+    token, that token is the integer the digits denote - a literal beyond the i64 range is never accepted as another
+    number (20 digits reach past u64::MAX; the value is accumulated in 128 bits by the trusted parse model)"""
+    from mirsym import models_chars
+    from mirsym.models_std import deref_all
+    prog = ck.program()
+    uni = engine.Universe()
+    ex = ck.new_engine(prog, uni=uni, summarise=('{closure#0}', '{closure#1}'))
+    models_chars.install(ex)
+    D = 20
+    d = S.fresh('digits', D, uni.axioms, ascii_only=True, min_len=1)
+    for b in d.bytes:
+        uni.axioms.append(z3.And(z3.UGE(b, 0x30), z3.ULE(b, 0x39)))
+    numtxt = S.SStr([z3.BitVecVal(c, 8) for c in sign.encode()] + list(d.bytes), d.length + len(sign), 'number')
+    fn = [f for f in prog.fns if f.kind == 'fn' and f.name.endswith('::tokenise') and 'closure' not in f.name]
+    if len(fn) != 1:
+        raise Unsupported('cannot find the MIR body of tokenise')
+    results = ex.explore(fn[0], [Ref(Cont([StrV(numtxt)]), 0)])
+    for r in results:
+        ck.blocks |= r.blocks
+    valid, val = models_std.parse_int_terms(uni, numtxt, 'i64')
+    label = 'condition constant %s<digits>' % sign
+    br = ck.bridge()
+
+    def on_sat(model, what):
+        tried = [S.model_bytes(model, d)] + [t.encode() for t in ('9223372036854775808', '18446744073709551615', '9223372036854775809',
+                                                                   '18446744073709551616', '99999999999999999999', '9223372036854775807', '1')]
+        for digits in tried:
+            text = sign.encode() + digits
+            exp = int(text.decode())
+            fits = -(1 << 63) <= exp < (1 << 63)
+            n = br.call(cmd='tokenise', s=list(text))
+            path = ck.write_replay('condition_constant_' + text.decode(), {'input': text.decode(), 'native': n, 'expected': exp if fits else 'rejected',
+                                                                            'request': {'cmd': 'tokenise', 's': list(text)}, 'what': what})
+            ck.replays_ok += 1
+            if 'panic' in n:
+                return ('violation', path, '%s: tokenise(%r) panics' % (label, text.decode()))
+            if n.get('ok'):
+                toks = n.get('tokens') or []
+                import re as _re
+                m = _re.match(r'^Integer\((-?\d+)\)$', toks[0]) if len(toks) == 1 and isinstance(toks[0], str) else None
+                got = int(m.group(1)) if m else None
+                if got is None and len(toks) == 1 and isinstance(toks[0], str) and toks[0].startswith('Float(') and not fits:
+                    continue
+                if got != exp:
+                    return ('violation', path, '%s: the literal %r is read as %r, it denotes %d%s' % (
+                        label, text.decode(), toks, exp, '' if fits else ' (outside the i64 range: must be rejected)'))
+        return ('spurious', 'native tokenise reads or rejects every replayed literal correctly')
+    int_idx = prog.enum_variants('tokeniser::Token').index('Integer')
+    flt_idx = prog.enum_variants('tokeniser::Token').index('Float')
+    oks = []
+    for i, r in enumerate(results):
+        if r.kind == 'panic':
+            ck.obligation('%s: no panic (path %d)' % (label, i), uni, z3.And(*r.pc) if r.pc else True, on_sat=lambda m: on_sat(m, 'panic'))
+            continue
+        if r.value.vname != 'Ok':
+            continue
+        oks.append(r)
+        good = False
+        vec = deref_all(r.value.items[0])
+        toks = getattr(vec, 'items', None)
+        if toks is not None and len(toks) == 1:
+            t = toks[0]
+            if isinstance(t, Adt) and t.variant == int_idx and isinstance(t.items[0], BV):
+                got = t.items[0].v
+                got = z3.BitVecVal(got, 64) if isinstance(got, int) else got
+                good = z3.And(valid, got == val)
+            elif isinstance(t, Adt) and t.variant == flt_idx:
+                good = z3.Not(valid)        # a literal that is no i64 may become a float; its value is not modelled
+        ck.obligation('%s: an accepted literal denotes its digits (path %d)' % (label, i), uni,
+                      z3.And(*r.pc, z3.Not(z3bool(good))) if r.pc else z3.Not(z3bool(good)),
+                      sample={'form': label, 'digits': '1..%d' % D}, on_sat=lambda m: on_sat(m, 'value'))
+    ck.extra['condition_constant_ok_paths'] = ck.extra.get('condition_constant_ok_paths', 0) + len(oks)
+    ck.extra['programs'] = ck.extra.get('programs', 0) + 1
+
+
 def safe_name(s):
     return ''.join(c if c.isalnum() else '_' for c in s)[:60]
 
@@ -335,6 +415,9 @@ def run_unit(ck, unit):
         return
     if unit[0] == 'constant-text':
         constant_text_unit(ck, unit[1], unit[2])
+        return
+    if unit[0] == 'condition-constant':
+        condition_constant_unit(ck, unit[1])
         return
     c = setup(ck)
     uni, d, n, y, cf, cg, pf, pg = c.uni, c.d, c.n, c.y, c.cf, c.cg, c.pf, c.pg
